@@ -128,6 +128,17 @@ PROPS = {
              'Exact rational arithmetic is the oracle of the bounded tier; its domain is written into evidence.coverage.',
         explanation='deductive containment proofs over assumed real-order contracts of the mpf operations, plus a bounded exact-oracle tier; not a proof of the property from first principles',
         technique='deductive VCs over the reals (universally quantified member points) from the real libmpi bodies + bounded native containment check'),
+    'C15': dict(
+        title='complex interval operations contain every exact result', level='other', engines=[],
+        claim='Deductive, partial: for universally quantified points (xr + i xi) of the rectangle x and (yr + i yi) of y, the real bodies '
+              'of libmpi mpci_add, mpci_sub, mpci_neg, mpci_pos, mpci_mul and mpci_div (y != 0) return valid rectangles containing the '
+              'exact real and imaginary parts of x op y, for all rectangles incl. infinite sides and all precisions. They are verified '
+              'against the quantified contracts of the real interval operations proved under C14 (instantiated per call), which in turn '
+              'rest on the assumed real-order view of the mpf operations. Not covered: **, abs, exp, log, cos, sin, gamma, rgamma, '
+              'loggamma, factorial (mpci_gamma corner selection, F12, was never confirmed as a defect), the context layer ctx_iv.',
+        note=KERNEL_NOTE + ' Real view as for C14: assumed order contracts of the mpf operations (contracts/realview.py).',
+        explanation='deductive containment proofs for six of the operations over the assumed real-order contracts; no claim for the transcendental functions',
+        technique='deductive VCs over the reals (universally quantified member points) from the real libmpi mpci_* bodies, callee contracts instantiated per call'),
     'C29': dict(
         title='root finders return genuine roots', level='proof', engines=['guards'], no_units=True,
         claim='Control/data-flow contracts decided for all inputs by enumerating every path of the real function bodies '
@@ -255,7 +266,6 @@ PROPS = {
 }
 
 NOT_APPLICABLE = {
-    'C15': 'not built yet (libmpi complex contracts)',
     'C19': 'accuracy of zeta-family evaluations (Borwein / Euler-Maclaurin / Riemann-Siegel) is analytic',
     'C21': 'accuracy of Bessel/Airy families is analytic (hypercomb cancellation heuristics, asymptotic switches)',
     'C22': 'accuracy of hypergeometric functions / orthogonal polynomials is analytic',
